@@ -51,6 +51,8 @@ CONFIGS = {
 }
 QUICK = ["lists_q", "pktout_q", "table", "ports_q", "buf_q", "frag"]
 THOROUGH = ["lists", "pktout", "table", "ports", "buf", "frag"]
+# every operation sequence of length D over a small alphabet (history the abstract state does not show)
+PATHS = {"quick": "paths3", "thorough": "paths4"}
 
 
 # ---------------------------------------------------------------------------
@@ -244,15 +246,18 @@ def run(ctx):
   quick = ctx.tier == "quick"
   ctx.rule = ("behaviours exported by TLC from Datapath.tla (one per transition of the abstract state graph "
               "of each configuration = shortest path to the source state + the transition; plus -simulate "
-              "runs of depth 30 over seeded random action lists of length <= 6), frame records turned into "
+              "runs of depth 30 over seeded random action lists of length <= 6; plus every operation sequence of "
+              "length 3 (4 in thorough) over a small traffic / port-mod alphabet), frame records turned into "
               "bytes by TLC (Frames!Enc), are replayed on a real SoftwareSwitch; after EVERY step the "
               "(port, bytes) of every DpPacketOut, every packet-in, the counters of all ports and the port "
               "configuration read over the wire must equal the spec's.  Recorded random histories of the real "
               "switch are validated by TLC.  distinct = distinct action/argument sequences; non-trivial = "
               "contains at least one frame passing through the datapath")
   ctx.assumptions = [
-      "bounds: 3 ports; 21 frame shapes (untagged/tagged x IPv4 TCP/UDP/ICMP/other, ARP, opaque ethertype, 802.1D "
-      "BPDU, odd payloads, CFI set, ECN set, first/later fragments, 242-byte frame); action lists: every list of length <= 2 over the "
+      "bounds: 3 ports; 30 frame shapes (untagged/tagged x IPv4 TCP/UDP/ICMP/other, ARP, opaque ethertype, 802.1D "
+      "BPDU, odd payloads, CFI set, ECN set, first/later fragments, 242-byte frame, IPv4 headers with options "
+      "(Router Alert IHL 6, NOP+RA IHL 7, Timestamp IHL 8, full Record Route IHL 15) and TCP headers with options "
+      "(data offset 6, 7 with EOL padding, 10)); action lists: every list of length <= 2 over the "
       "alphabet (thorough 28 actions: 14 rewrites over the 10 rewrite types + 14 outputs/enqueues to ports 1-3, an "
       "absent port, IN_PORT, FLOOD, ALL, CONTROLLER with max_len 65535/0, NORMAL, LOCAL, NONE; quick 10 + 8; TABLE in "
       "packet-outs) + output-rewrite-output and rewrite-rewrite-output triples exhaustively, length <= 6 by seeded random lists; port "
@@ -300,9 +305,10 @@ def run(ctx):
                    depth=31, seed=ctx.seed + 1, tag="C12", env=dict(JVM, C12_LISTS=lpath), timeout=1500)
 
   try:
-    with concurrent.futures.ThreadPoolExecutor(max_workers=7) as pool:
+    with concurrent.futures.ThreadPoolExecutor(max_workers=8) as pool:
       futs = {n: pool.submit(mx, n) for n in names}
       futs["sim"] = pool.submit(simulate, None)
+      futs["paths"] = pool.submit(mx, PATHS[ctx.tier if ctx.tier in PATHS else "quick"])
       results = {n: f.result() for n, f in futs.items()}
   finally:
     os.unlink(lpath)
@@ -317,6 +323,17 @@ def run(ctx):
       raise tlc.TLCError("%s: exported %d behaviours for %d transitions" % (n, len(behs), r.generated - 1))
     shapes = r.tagged("S")[0]
     exported[n] = behs
+  r = results["paths"]
+  if r.violated:
+    raise tlc.TLCError("spec violates its own property %s (paths):\n%s" % (r.violated, r.error_trace[:3000]))
+  paths = r.tagged("H")
+  seen = set(st["a"] for b in paths for st in b)
+  stale = [b for b in paths if len(b) >= 3 and b[-3]["a"] in TRAFFIC and b[-2]["a"] == "PortMod" and b[-1]["a"] in TRAFFIC]
+  if not {"Rx", "PacketOut", "PortMod", "FlowMod"} <= seen or not stale:
+    raise tlc.TLCError("vacuous all-paths export: actions %s, traffic/port-mod/traffic paths %d" % (sorted(seen), len(stale)))
+  ctx.add_model("Datapath all operation sequences of length %d (small alphabet)" % len(paths[0]), r,
+                properties=PROPS + ["TypeOK"], paths=len(paths))
+  exported["paths"] = paths
   sim = results["sim"].tagged("H")
   if len(sim) < num // 2:
     raise tlc.TLCError("simulation exported %d behaviours" % len(sim))
@@ -350,6 +367,8 @@ def run(ctx):
                        "truncated_packet_ins", "lists_len3plus") if not total.get(k)]
   if empty:
     raise tlc.TLCError("vacuous export: no behaviour exercises %s" % empty)
+  behs = [concretise(b, orc, shapes) for b in exported["paths"]]
+  replay(ctx, "paths", behs, dict(NP=3, MissLen=128))
   behs = [concretise(b, orc, shapes) for b in exported["sim"]]
   replay(ctx, "sim", behs, dict(NP=3, MissLen=128, MaxHeld=2), chunk=10)
   if last is None:
